@@ -147,7 +147,8 @@ def random_bundles(seed, n):
 # running the engine and judging (TLC)
 # ---------------------------------------------------------------------------------------------
 def run_engine(inp_file, n_inputs, workdir, tag, fresh=False):
-  nshards = max(1, min(PAR, n_inputs // 200 or 1))
+  # one engine worker and one judging JVM per shard; a JVM costs seconds to start, so few, large shards
+  nshards = max(1, min(PAR, n_inputs // 2500))
   args = [{"inp": inp_file, "out": os.path.join(workdir, "%s-%02d.json" % (tag, i)),
            "take": [i, nshards], "fresh": fresh} for i in range(nshards)]
   corpus.run_workers(WORKER, args, parallel=PAR)
@@ -187,7 +188,7 @@ def judge(files, workdir, stats=True):
   else:
     os.environ.pop("TEMPIDS_STATS", None)
   try:
-    _res, wall = tlc.validate_shards(TRACE, files, workdir, parallel=PAR, xmx="2g")
+    _res, wall = tlc.validate_shards(TRACE, files, workdir, parallel=PAR, xmx="3g")
   finally:
     if old is None:
       os.environ.pop("TEMPIDS_STATS", None)
@@ -235,7 +236,8 @@ def _selftest(files, viol, workdir):
         break
     if served and rejected:
       break
-  if served is None or rejected is None:
+  synthetic = served is None or rejected is None
+  if synthetic:
     # nothing suitable was served / rejected correctly (a badly broken tree): synthetic records
     doc = {"A": [{"id": 1, "s": 11, "r": 0, "rl": []}], "B": [{"id": 1, "s": 21, "r": 0, "rl": []}]}
     add_b = {"k": "Add", "t": "B", "ids": [-1], "s": [100], "col": "", "vals": []}
@@ -264,10 +266,11 @@ def _selftest(files, viol, workdir):
     p = os.path.join(workdir, "selftest-%s.json" % name)
     json.dump([base], open(p, "w"))
     os.environ.pop("TEMPIDS_STATS", None)
-    results, _ = tlc.validate_shards(TRACE, [p], workdir, parallel=1, xmx="1g")
-    if results:
-      raise tlc.MachineryError("self-test: the unmodified %s record is not accepted by %s: %s"
-                               % (name, TRACE, results))
+    if synthetic:      # (recorded cases were accepted in the main run already)
+      results, _ = tlc.validate_shards(TRACE, [p], workdir, parallel=1, xmx="1g")
+      if results:
+        raise tlc.MachineryError("self-test: the unmodified %s record is not accepted by %s: %s"
+                                 % (name, TRACE, results))
     if not fnspec.mutation_selftest(TRACE, p, mutate, workdir):
       raise tlc.MachineryError("self-test: a corrupted %s record was accepted by %s" % (name, TRACE))
 
